@@ -692,6 +692,19 @@ example : lbfgsUpdateValid (0 : ℚ) 0 true 1 0 3 2 0 = true := by
 example : lbfgsUpdateValid (0 : ℚ) 0 true 1 0 0 2 0 = false := by
   simp [lbfgsUpdateValid, cbfgsEnabled]
 
+/-- Hypotheses of `applyMasked_eq_restricted` are satisfiable: a carrier without NaN, a proper
+    subset `J = {0}` of a 2-vector, and the restriction it induces. -/
+example : ∀ x : ℚ, RealLike.isNaN x = false := fun _ => rfl
+
+example : JOK false [0] 2 := fun _ => ⟨by simp, by simp⟩
+
+example : G false [0] ([1, 2] : Vec ℚ) = [1] := by simp [G, vget]
+
+/-- The §7-I scenario restricted to `J = {0}`: the pair `s = (1,1), y = (1,2)` becomes `([1],[1])`,
+    whose dense operator (scaling `sᵀy/yᵀy = 1`) maps `(1)` to `(1)`. -/
+example : H (1 : ℚ) [([1], [1])] [1] = [1] := by
+  simp [H, Hrev, dot_cons]
+
 /-- Ring index functions at memory 3: successor wraps, predecessor wraps, the traversal orders. -/
 example : lbfgsSucc 3 2 = 0 ∧ lbfgsPred 3 0 = 2 ∧ lbfgsForeachFwd 3 1 true = [1, 2, 0] ∧
     lbfgsForeachRev 3 1 true = [0, 2, 1] ∧ lbfgsForeachFwd 3 2 false = [0, 1] := by decide
